@@ -34,6 +34,7 @@ class Gen:
         self.has_attention_in_branch = False
         self.helpers_used: Set[str] = set()
         self.lin_params: List[Any] = []
+        self.extra_outputs: List[str] = []
 
     # ---------------- helpers
     def shape(self, v: str) -> List[int]:
@@ -230,6 +231,30 @@ class Gen:
         self.fresh.add(out)
         return out
 
+    def fanout(self, cur: str) -> str:
+        """One tensor used by several consumers (its gradient is the sum over them)."""
+        r, b = self.r, self.b
+        y = self.unary(cur)
+        z = self.unary(cur) if r.random() < 0.5 else self.linear(cur, self.D(cur))
+        kind = r.choice(["add", "mul", "three"])
+        if kind == "mul":
+            return b.op("mul", [y, z], self.shape(cur))
+        out = b.op("add", [y, z], self.shape(cur))
+        if kind == "three":
+            out = b.op("mul", [out, cur], self.shape(cur))
+        return out
+
+    def intmask(self, cur: str) -> str:
+        """Integer / bool intermediates: a mask and a where() (non-float nodes must never be
+        instrumented), and sometimes an argmax kept as an extra integer output."""
+        r, b = self.r, self.b
+        m = b.op("gt_mask", [cur], self.shape(cur), kind="bool", c=r.choice([0.0, 0.5, -0.5]))
+        other = b.op("mul_scalar", [cur], c=r.choice([0.0, 0.1]))
+        out = b.op("where", [m, cur, other], self.shape(cur))
+        if r.random() < 0.4:
+            self.extra_outputs.append(b.op("argmax_ids", [cur], self.shape(cur)[:-1], kind="ids"))
+        return out
+
     def residual(self, cur: str, depth: int = 0) -> str:
         r, b = self.r, self.b
         self.nres += 1
@@ -304,8 +329,11 @@ class Gen:
         want_res = min(want_res, max_res)
         steps: List[str] = []
         for _ in range(nsteps):
-            steps.append(r.choice(["linear", "linear", "unary", "unary", "norm", "matmul", "attention",
-                                   "reshape", "plain_add", "conv", "helper"]))
+            kinds = ["linear", "linear", "unary", "unary", "norm", "matmul", "attention",
+                     "reshape", "plain_add", "conv", "helper"]
+            if self.vocab == "track":
+                kinds += ["fanout", "fanout", "intmask"]
+            steps.append(r.choice(kinds))
         for _ in range(want_res):
             steps.insert(r.randrange(len(steps) + 1), "residual")
         if getattr(self, "pending_plain_sum_skip", False):
@@ -340,6 +368,12 @@ class Gen:
                 cur = self.helper(cur)
             elif s == "residual":
                 cur = self.residual(cur)
+            elif s == "fanout":
+                cur = self.fanout(cur)
+            elif s == "intmask":
+                cur = self.intmask(cur)
+            if self.vocab == "track" and r.random() < 0.15 and len(self.extra_outputs) < 2:
+                self.extra_outputs.append(cur)  # an intermediate is also returned
         outs = [cur]
         end = r.choice(["none", "none", "head", "ce", "mse"]) if self.vocab != "quant" else r.choice(["none", "head"])
         if end == "head":
@@ -356,6 +390,7 @@ class Gen:
         elif end == "mse":
             tgt = b.inp(self.shape(cur))
             outs = [b.op("mse_loss", [cur, tgt], [])]
+        outs = outs + [o for o in self.extra_outputs if o not in outs]
         spec = b.out(*outs)
         spec["shapes_used"] = sorted(self.used_shapes)
         spec["helpers_used"] = sorted(self.helpers_used)
